@@ -225,7 +225,8 @@ theorem pop_expand (E : Env S) (s s2 : St S) (nt : NT S Unit) (top : HeapElem) (
     (hsl : succLoop E nt top.P top.combo 0 args.length (s.setQueue nt q') maxi = some (s2, maxi')) :
     s2.bank = s.bank ∧ QAll (QWf E) s2 ∧ DAll (DWf E) s2 ∧ (∀ nt' P', Frontier (pend s2 nt' P')) ∧
     (∀ nt' P' c, Done (pend s nt' P') c → Done (pend s2 nt' P') c) ∧ Done (pend s2 nt top.P) top.combo ∧
-    top.combo ∈ pend s nt top.P ∧ top.combo.length = args.length := by
+    top.combo ∈ pend s nt top.P ∧ top.combo.length = args.length ∧
+    (∀ nt' P' c, Cov (pend s nt' P') c → Cov (pend s2 nt' P') c) := by
   have hperm := Heapq.pop_perm ltE _ _ _ hpop
   have htop : top ∈ s.queueOf nt := hperm.mem_iff.mpr List.mem_cons_self
   obtain ⟨l0, hl0, he0⟩ := queueOf_mem htop
@@ -273,7 +274,7 @@ theorem pop_expand (E : Env S) (s s2 : St S) (nt : NT S Unit) (top : HeapElem) (
       simp only [hP, if_false, List.nil_append] at this
       exact this.symm
     · rw [p3 nt' P' hn]
-  refine ⟨hqd.bank, hq2, hd2, ?_, ?_, e2, hF0.mem_iff.mpr List.mem_cons_self, hlen⟩
+  refine ⟨hqd.bank, hq2, hd2, ?_, ?_, e2, hF0.mem_iff.mpr List.mem_cons_self, hlen, ?_⟩
   · intro nt' P'
     by_cases hc : nt' = nt ∧ P' = top.P
     · obtain ⟨rfl, rfl⟩ := hc; exact e1
@@ -281,6 +282,11 @@ theorem pop_expand (E : Env S) (s s2 : St S) (nt : NT S Unit) (top : HeapElem) (
   · intro nt' P' c hd
     by_cases hc : nt' = nt ∧ P' = top.P
     · obtain ⟨rfl, rfl⟩ := hc; exact e3 c (hd.perm hF0.symm)
+    · exact hd.perm (hother nt' P' hc)
+  · intro nt' P' c hd
+    by_cases hc : nt' = nt ∧ P' = top.P
+    · obtain ⟨rfl, rfl⟩ := hc
+      exact Cov.expand top.combo (pend s2 nt' top.P) ((h.front nt' top.P).perm hF0.symm) h2 (hd.perm hF0.symm)
     · exact hd.perm (hother nt' P' hc)
 
 theorem inBank_of_bank_eq {s s' : St S} (hb : s'.bank = s.bank) (nt : NT S Unit) (ci : Nat) (p : Prog) :
